@@ -520,7 +520,27 @@ def D21():
     return False
 
 
-ALL = [D17, D18, D19, D20, D21, F_C08_1, D1, D2, D3, D4, D5, D6, D7, D8, D9, D10, D11, D12, D13, D14, D15, D16,
+def F_C04_3():
+    "C04: transform_<attr>(f, _inplace=True) whose f returns the receiver's own list: items are prepared in place before a later item is rejected"
+    from typing import List
+
+    @spec_class
+    class M:
+        xs: List[int]
+
+        def _prepare_x(self, v):
+            return v + 10 if v < 2 else "bad"
+
+    m = M(xs=[])
+    m.xs.extend([1, 5])
+    try:
+        m.transform_xs(lambda items: items, _inplace=True)
+    except Exception:
+        pass
+    return m.xs != [1, 5]
+
+
+ALL = [D17, D18, D19, D20, D21, F_C08_1, F_C04_3, D1, D2, D3, D4, D5, D6, D7, D8, D9, D10, D11, D12, D13, D14, D15, D16,
        F_C01_1, F_C02_1, F_C04_1, F_C13_1, F_C07_1, F_C07_2, F_C07_3, F_C04_2, F_C01_2]
 
 if __name__ == "__main__":
